@@ -1060,6 +1060,35 @@ theorem sleep_returned_wait_ok (now0 : Nat) (sess : List Msg.Sess) (evs : List M
   omega
 
 open Coap.Sim Coap.Sched in
+/-- **m_wait_exact_and_positive** (full — no busy loop, no oversleeping, in runs): after every run over the C06 alphabet,
+the wait `coap_io_prepare_io` returns while something is pending is exactly the time to the earliest pending deadline
+of all sessions whenever that fits the `unsigned int` result, and it is positive (the hypothesis `now < d` of
+`wait_le_earliest` is discharged by `m_due_fires`). -/
+theorem m_wait_exact_and_positive (now0 : Nat) (sess : List Msg.Sess) (evs : List Msg.Ev)
+    (hs : ∀ se ∈ sess, SessOk se) (hin : RunG (Msg.init now0 sess) evs) :
+    let r := Msg.prepareCore (Msg.run (Msg.init now0 sess) evs)
+    ∀ d, Spec.SQ.earliest (abs r.1.q) = some d → d - r.1.now < 4294967296 → r.2 = d - r.1.now ∧ 0 < r.2 := by
+  intro r d hd h32
+  have hlt : r.1.now < d := by
+    have hdf := m_due_fires now0 sess evs hs hin
+    simp only [] at hdf
+    generalize (Msg.prepareCore (Msg.run (Msg.init now0 sess) evs)).1 = l' at *
+    rcases l' with ⟨now, ⟨base, nodes⟩, ss, out⟩
+    rcases nodes with _ | ⟨h, rest⟩
+    · simp [abs, absFrom, Spec.SQ.earliest] at hd
+    · simp only [abs, absFrom, Spec.SQ.earliest, Option.some.injEq] at hd
+      have := hdf ⟨base + h.t, h.sess, h.mid, h.tok⟩ (by simp [abs, absFrom])
+      simp only [] at this ⊢
+      omega
+  exact (wait_le_earliest (Msg.run (Msg.init now0 sess) evs) d hd hlt).2 h32
+
+open Coap.Sim Coap.Sched in
+/-- non-vacuity of `m_wait_exact_and_positive`: after the first 6 events of the gated witness the earliest deadline
+after the I/O step is 9000, now = 6000, wait = 3000 -/
+example : let r := Msg.prepareCore (Msg.run (Msg.init 0 [{ maxRtx := 1 }]) (gevs.take 6))
+    Spec.SQ.earliest (abs r.1.q) = some 9000 ∧ 9000 - r.1.now < 4294967296 ∧ r.2 = 3000 := by decide
+
+open Coap.Sim Coap.Sched in
 /-- **punctual_of_clock** (full): a run over the C06 alphabet in which the clock is never moved past a pending
 deadline (`ClockOk` — by `sleep_returned_wait_ok` what an application gets that sleeps no longer than the wait the
 library returned and calls `coap_io_prepare_io` after each `coap_send`) is punctual: submissions, arrivals, I/O steps,
